@@ -18,12 +18,13 @@ rc, o = sh(f"git apply {patch}")
 assert rc == 0, o
 os.makedirs(f"{wt}/tests", exist_ok=True)
 shutil.copy(demo, f"{wt}/tests/demo_{x}.rs")
+feat = " --features rand" if prop == "C19" else ""
 rc, o = sh("cargo test --offline -j 4 --lib 2>&1 | tail -15")
 m = re.search(r"test result: (\w+)\. (\d+) passed; (\d+) failed", o)
 failed = re.findall(r"^test (\S+) \.\.\. FAILED", o, re.M)
 meta["suite_with_patch"] = {"summary": m.group(0) if m else o[-300:], "failed": failed}
 suite_ok = bool(m) and (m.group(1) == "ok" or set(failed) <= {"p32e2::math::mul_add::test_mul_add"})
-rc, o = sh(f"cargo test --offline -j 4 --test demo_{x} 2>&1 | tail -5")
+rc, o = sh(f"cargo test --offline -j 4{feat} --test demo_{x} 2>&1 | tail -5")
 m2 = re.search(r"test result: (\w+)\. (\d+) passed; (\d+) failed", o)
 meta["demo_with_patch"] = m2.group(0) if m2 else o[-300:]
 demo_fails = bool(m2) and m2.group(1) == "FAILED"
@@ -35,7 +36,7 @@ meta["check"] = {"cmd": f"VERIF_REPO={wt} bin/check {prop} --no-evidence {' '.jo
                  "violation_lines": [l for l in o.split("\n") if l.startswith("VIOLATION")],
                  "undecided": [l for l in o.split("\n") if "UNDECIDED" in l]}
 sh("git checkout -- src")
-rc2, o = sh(f"cargo test --offline -j 4 --test demo_{x} 2>&1 | tail -5")
+rc2, o = sh(f"cargo test --offline -j 4{feat} --test demo_{x} 2>&1 | tail -5")
 m3 = re.search(r"test result: (\w+)\. (\d+) passed; (\d+) failed", o)
 meta["demo_pristine"] = m3.group(0) if m3 else o[-300:]
 demo_passes = bool(m3) and m3.group(1) == "ok"
